@@ -102,6 +102,7 @@ func main() {
 	if err != nil {
 		fatal(err)
 	}
+	sentinelTypes, sentinelFields = sentinels()
 	if *dump {
 		b, _ := json.MarshalIndent(descs, "", " ")
 		fmt.Println(string(b))
@@ -2027,6 +2028,124 @@ func fieldType(si *structInfo, path string) string {
 	return typeString(last.owner.pkg, last.typ)
 }
 
+// ---------------------------------------------------------------- omitempty vs. "missing" sentinels
+
+// A sentinel decoder is a struct type whose UnmarshalJSON sets one of its own bool fields to true (e.g.
+// base.HeightDecoder{h, decoded}): a key that is *missing* is then told apart from a zero value and mapped to
+// a non-zero default (NilHeight).  A marshaler field written with omitempty must not be read back through one.
+type sentinelField struct {
+	Struct string // marshaler struct (pkg.Type)
+	Key    string
+	Omit   bool
+	Via    string // unmarshaler struct . field type
+}
+
+var (
+	sentinelTypes  []string
+	sentinelFields []sentinelField
+)
+
+func baseCodecName(n string) string {
+	l := strings.ToLower(n)
+	for _, suf := range []string{"jsonunmarshaler", "jsonunmarshaller", "jsonmarshaler", "jsonmarshaller"} {
+		if strings.HasSuffix(l, suf) {
+			return l[:len(l)-len(suf)]
+		}
+	}
+	return ""
+}
+
+func sentinels() ([]string, []sentinelField) {
+	isSentinel := map[string]bool{} // pkgname.Type
+	dirs := make([]string, 0, len(pkgs))
+	for d := range pkgs {
+		dirs = append(dirs, d)
+	}
+	sort.Strings(dirs)
+	for _, d := range dirs {
+		p := pkgs[d]
+		for name, si := range p.structs {
+			m := p.methods[name]["UnmarshalJSON"]
+			if m == nil {
+				m = p.methods[name]["UnmarshalText"]
+			}
+			if m == nil {
+				continue
+			}
+			bools := map[string]bool{}
+			for _, f := range fieldsOf(si) {
+				if id, ok := f.typ.(*ast.Ident); ok && id.Name == "bool" {
+					bools[f.name] = true
+				}
+			}
+			if len(bools) == 0 {
+				continue
+			}
+			c := newCtx(m)
+			ast.Inspect(m.decl.Body, func(n ast.Node) bool {
+				as, ok := n.(*ast.AssignStmt)
+				if !ok {
+					return true
+				}
+				for i, l := range as.Lhs {
+					ch := chain(l)
+					if ch == nil || len(ch) != 2 || ch[0] != c.recv || !bools[ch[1]] || i >= len(as.Rhs) {
+						continue
+					}
+					if id, ok := as.Rhs[i].(*ast.Ident); ok && id.Name == "true" {
+						isSentinel[p.name+"."+name] = true
+					}
+				}
+				return true
+			})
+		}
+	}
+	var types []string
+	for t := range isSentinel {
+		types = append(types, t)
+	}
+	sort.Strings(types)
+	var out []sentinelField
+	for _, d := range dirs {
+		p := pkgs[d]
+		names := make([]string, 0, len(p.structs))
+		for n := range p.structs {
+			names = append(names, n)
+		}
+		sort.Strings(names)
+		for _, un := range names {
+			ul := strings.ToLower(un)
+			if !strings.Contains(ul, "unmarshal") {
+				continue
+			}
+			usi := p.structs[un]
+			for _, uf := range fieldsOf(usi) {
+				key, _, skip, has := parseTag(uf.tag)
+				if !has || skip || uf.embedded {
+					continue
+				}
+				ts := typeString(p, uf.typ)
+				if !isSentinel[ts] {
+					continue
+				}
+				// the marshaler struct(s) of the same codec (same base name, same package) writing this key
+				for _, mn := range names {
+					if strings.Contains(strings.ToLower(mn), "unmarshal") || baseCodecName(mn) == "" || baseCodecName(mn) != baseCodecName(un) {
+						continue
+					}
+					for _, mf := range fieldsOf(p.structs[mn]) {
+						mk, omit, mskip, mhas := parseTag(mf.tag)
+						if mhas && !mskip && mk == key {
+							out = append(out, sentinelField{Struct: p.name + "." + mn, Key: key, Omit: omit, Via: p.name + "." + un + ":" + ts})
+						}
+					}
+				}
+			}
+		}
+	}
+	return types, out
+}
+
 // ---------------------------------------------------------------- rendering
 
 func coqStr(s string) string {
@@ -2089,7 +2208,19 @@ Record codec := mkCodec {
 		}
 		sb.WriteString("\n")
 	}
-	sb.WriteString("].\n")
+	sb.WriteString("].\n\n")
+	sb.WriteString("(* struct types whose UnmarshalJSON records that the key was present (a missing key gets a non-zero default) *)\n")
+	var st []string
+	for _, t := range sentinelTypes {
+		st = append(st, coqStr(t))
+	}
+	sb.WriteString("Definition sentinel_decoders : list string := [" + strings.Join(st, "; ") + "].\n\n")
+	sb.WriteString("(* (marshaler struct, json key, omitempty on the marshal side, unmarshaler struct:field type) for every key read back through a sentinel decoder *)\n")
+	var sf []string
+	for _, f := range sentinelFields {
+		sf = append(sf, fmt.Sprintf("(%s, %s, %s, %s)", coqStr(f.Struct), coqStr(f.Key), coqBool(f.Omit), coqStr(f.Via)))
+	}
+	sb.WriteString("Definition sentinel_fields : list (string * string * bool * string) := [\n  " + strings.Join(sf, ";\n  ") + "].\n")
 	if len(warn) > 0 {
 		sb.WriteString("\n(* warnings:\n")
 		for _, w := range warn {
